@@ -659,7 +659,7 @@ Proof.
   assert (Id : Ok (ps, bal) = Ok (ps', bal') -> Forall user_made ps') by (intros [= <- <-]; exact Hu).
   destruct nul; [exact Id|]. destruct bal as [| | | |b]; try exact Id.
   destruct (filter (fun a => negb (is_realzero a)) b) as [|x0 [|y0 [|z b']]]; try exact Id.
-  destruct (find_top ps None) as [[tp|] [|]]; try exact Id.
+  destruct (find_top _ ps None) as [[tp|] [|]]; try exact Id.
   destruct (negb (is_zero cp x0) && negb (is_zero cp y0)); [|exact Id].
   destruct (comm_eqb (acomm x0) match p_amt tp with Some a => acomm a | None => None end).
   - destruct (amt_div cp y0 x0) as [q|]; cbn [bind]; [|discriminate]. apply apply_rate_user. exact Hu.
